@@ -1,6 +1,7 @@
 """C15: strings and string views denote exactly their character sequence, in bounds."""
 import sys
 import vlib
+from comp.cxxleaf import check as cxxleaf
 from comp.str import check as strc
 
 def main():
@@ -9,7 +10,9 @@ def main():
     c.trusted = ["Coq 8.16.1 kernel (coqc; vm_compute only in Examples)"] + strc.TRUSTED
     c.assumptions = strc.ASSUMPTIONS
     c.kind_filter = lambda k: k not in vlib.LIFETIME_KINDS     # lifetime/allocation kinds belong to C16
-    c.prove()
+    cxxleaf.run(c, ["str"])      # leaf functions re-translated from the current source (translator tie)
+    c.trusted = c.trusted + cxxleaf.TRUSTED
+    c.prove(["C15"] + cxxleaf.prop_ids(["str"]))
     strc.run(c)
     sys.exit(c.finish())
 
